@@ -415,6 +415,8 @@ def _propagate_dynsys(
     state0_np = _validate_initial_state(state0, dynsys.dim)
 
     dynsys_dir = _DirectedSystem(dynsys, forward, flip_indices=flip_indices)
+    # The flag is a sign: stamp the samples with the direction that is actually integrated.
+    forward = 1 if forward >= 0 else -1
 
     t_eval = np.linspace(t0, tf, steps)
 
